@@ -140,6 +140,19 @@ package x509
 //@ ensures [trailing-data-is-fatal] (lax.called ==> lax.res1 == nil) && ((!lax.called && len(um.res0) > 0) || (lax.called && len(lax.res0) > 0)) ==> result0 == nil
 //@ at lax assert [lax-retry-on-same-input-and-target] lax.b == asn1Data && lax.params == "lax" && lax.val == um.val
 
+//@ func ParseTBSCertificate
+//@ props C11 C12
+//@ arith int
+//@ modifies nothing
+//@ site asn1.Unmarshal#1 as um
+//@ site UnmarshalWithParams#1 as lax
+//@ site parseCertificate#1 as pc
+//@ fresh result0
+//@ ensures [coherent] (result0 != nil && (result1 == nil || typeof(result1) == NonFatalErrors)) || (result0 == nil && result1 != nil && typeof(result1) != NonFatalErrors && typeof(result1) != *Errors)
+//@ ensures [strict-parse-failure-is-recorded-not-lost] um.res1 != nil && result0 != nil ==> typeof(result1) == NonFatalErrors
+//@ ensures [trailing-data-is-fatal] (lax.called ==> lax.res1 == nil) && ((!lax.called && len(um.res0) > 0) || (lax.called && len(lax.res0) > 0)) ==> result0 == nil
+//@ at lax assert [lax-retry-on-same-input-and-target] lax.b == asn1Data && lax.params == "lax" && lax.val == um.val
+
 //@ func (*Errors).FirstFatal
 //@ props C11
 //@ pure
